@@ -234,6 +234,22 @@ EXTRA.append(("same_named_class_of_another_module_in_list",
                "pixels.ms": _PIX, "labels.ms": _LAB}))
 
 
+# `modify name: T = value` re-states a type: it must be the type the captured variable has
+_MT = [("int", "0", "7"), ("str", '"s"', '"t"'), ("bool", "true", "false"), ("float", "1.5", "2.5"), ("[int...]", "[1]", "[2, 3]")]
+_MCTX = [("function", 'g = fn() {\n  %s\n}\ng()\n'),
+         ("nested_function", 'g = fn() {\n  h = fn() {\n    %s\n  }\n  h()\n}\ng()\n'),
+         ("if_in_function", 'g = fn(c: bool) {\n  if c {\n    %s\n  }\n}\ng(true)\n'),
+         ("method", 'class Km {\n  constructor(self) {}\n  fn go(self) {\n    %s\n  }\n}\nkm = Km()\nkm.go()\n')]
+for _t1, _v1, _w1 in _MT:
+    for _cn, _cx in _MCTX:
+        EXTRA.append(("control:typed_modify:%s:%s" % (_t1, _cn),
+                      'print "@@RUN@@"\ntotal: %s = %s\n' % (_t1, _v1) + _cx % ("modify total: %s = %s" % (_t1, _w1)) + 'print total\n'))
+        for _t2, _v2, _w2 in _MT:
+            if _t2 != _t1:
+                EXTRA.append(("typed_modify_other_type:%s_as_%s:%s" % (_t1, _t2, _cn),
+                              'print "@@RUN@@"\ntotal: %s = %s\n' % (_t1, _v1) + _cx % ("modify total: %s = %s" % (_t2, _w2)) + 'print total\n'))
+
+
 def work_extra(item):
     name, src = item
     files = dict(src) if isinstance(src, dict) else {"main.ms": src}
@@ -294,6 +310,10 @@ def run(ctx):
         by_kind["catalogue/" + res["name"]] = 1
         if res["verdict"] == "inconclusive":
             out.inconclusive.append(res["name"])
+        elif res["name"].startswith("control:"):
+            # the well-typed twin of a fault family: when it is not accepted the family proves nothing
+            if res["verdict"] != "accepted":
+                out.inconclusive.append("%s is %s: its fault family is vacuous" % (res["name"], res["verdict"]))
         elif res["verdict"] != "rejected":
             out.violations.append(core.Violation("C03:catalogue:%s:%s" % (res["name"], res["verdict"]),
                                                  "ill-typed catalogue program `%s` -> %s" % (res["name"], res["verdict"]),
